@@ -11,6 +11,8 @@ for m in sorted(glob.glob(f"/verif/seeded/{pid}-*/meta.json")):
         prior.append("- " + json.load(open(m))["what"][:300])
     except Exception:
         pass
+if tag.startswith("d"):
+    prior = []   # round d: an unbiased sample, no list of earlier changes is shown
 avoid = ("\n\nOther people already produced the following changes for this property; yours must be DIFFERENT in mechanism and location (do not repeat or trivially vary them):\n" + "\n".join(prior)) if prior else ""
 print(f"""You are helping evaluate a verification effort on the Python library rdflib by writing realistic *breaking changes* (seeded defects). You work ONLY inside the git worktree `{wt}` (a checkout of rdflib) and the output directory `{out}` (create it). Python is `/venv/bin/python`; ALWAYS run things with `PYTHONPATH={wt}` so that this checkout is imported (check once: `cd {wt} && PYTHONPATH={wt} /venv/bin/python -c "import rdflib; print(rdflib.__file__)"` must print a path under {wt}). Do not read or write anything under /verif or /repo or other directories of /tmp/seed. There is no network. NEVER use `git stash` (the stash is shared with other worktrees); to go back to the clean tree use `git checkout -- rdflib`, and use `git apply` / `git apply -R` with your saved patch files.
 
